@@ -66,7 +66,9 @@ def special_cases(rng):
 def run(R):
     if not R.build():
         return
-    R.lean(["C16"])
+    R.lean(["C16", "C16Frame"])
+    import hunted
+    hunted.run(R, "C16")
     quick = R.tier == "quick"
     rng = R.rng
     P = scen.Producers()
